@@ -129,6 +129,7 @@ func init() {
 		Run: func(c *Ctx) {
 			c.ruleDescFields("R-DESC-FIELDS", "C34")
 			c.ruleDescWriteGuard("R-DESC-WRITE-GUARD")
+			c.rulePresenceNotValue("R-PRESENCE-NOT-VALUE", 4)
 			c.ruleFeatureFields("R-FEATURE-FIELDS")
 			c.ruleOptionOverride("R-FEATURE-FIELDS")
 		},
@@ -147,6 +148,7 @@ func init() {
 			c.ruleOptionOverride("R-FEATURE-FIELDS")
 			c.ruleDescPresenceStore("R-DESC-PRESENCE-STORE", 6)
 			c.ruleRequiredNumbers("R-REQUIRED-NUMBERS", 2)
+			c.rulePresenceNotValue("R-PRESENCE-NOT-VALUE", 4)
 			c.ruleOptionPromotion("R-OPTION-PROMOTION", 5)
 			c.ruleFeatureInherit("R-FEATURE-INHERIT", 12)
 		},
